@@ -609,6 +609,13 @@ def run(ctx):
             union_bits(ctx, ctx.rng("union-bits"))
         if ctx.shard % 4 == 2:
             single_and_enum_forms(ctx, ctx.rng("single-forms"), 6 if not ctx.thorough else 120)
+        if ctx.shard % 4 == 3:
+            # units placed at run time (behind a variable-size member), exactly filled units followed by a unit of the
+            # same type, storage types whose size is not their alignment
+            r2 = ctx.rng("runtime-units")
+            for _ in range(8 if not ctx.thorough else 80):
+                ctx.cell("bit-field-units-placed-at-run-time")
+                check_case(ctx, gen.runtime_placed_units_case(r2), r2)
         for i in range(N_CASES[ctx.tier]):
             if ctx.out_of_time():
                 break
